@@ -248,6 +248,9 @@ def h_spelling(s: int, x: int) -> bool:
             for p in (d + "/src/a.c", d + "/src/b.c", out + "/x.c"):
                 with open(p, "w") as f:
                     f.write("int a;\n")
+            os.makedirs(d + "/src-old")
+            with open(d + "/src-old/legacy.c", "w") as f:
+                f.write("int l;\n")
             os.symlink(d + "/src", d + "/ldir")
             os.symlink(d + "/src/a.c", d + "/lfile.c")
             os.symlink(out + "/x.c", d + "/lout.c")
@@ -265,9 +268,11 @@ def h_spelling(s: int, x: int) -> bool:
                 why = "a link whose target is outside the code base is reported as a member"
             elif (d + "/dangling.c") in cb:
                 why = "a dangling link is reported as a member"
+            elif (d + "/src-old/legacy.c") in codebasin.CodeBase(d + "/src") or "src/../src-old/legacy.c" in codebasin.CodeBase(d + "/src"):
+                why = "a file in a sibling directory whose name starts with the code-base directory's name is reported as a member"
             else:
                 listed = sorted(cb)
-                want = sorted([d + "/src/a.c", d + "/src/b.c", d + "/lfile.c"]) if xi == 0 else (
+                want = sorted([d + "/src/a.c", d + "/src/b.c", d + "/lfile.c", d + "/src-old/legacy.c"]) if xi == 0 else (
                     [d + "/src/b.c"] if xi == 1 else [])
                 if [m for m in listed if m in cb] != listed:
                     why = "enumeration yields a non-member"
